@@ -22,6 +22,18 @@ const PAD: usize = 8;
 
 struct CTok {
     ptr: *mut LlgTokenizer,
+    // the trie the tokenize callback of a canonical tokenizer reads (user_data points into the box)
+    _trie: Option<Box<toktrie::TokTrie>>,
+}
+
+/// `tokenize_fn` of the C API: greedy tokenisation over the same trie as the Rust-side environment
+extern "C" fn c_tokenize(user_data: *const std::ffi::c_void, bytes: *const u8, bytes_len: usize, out: *mut u32, out_len: usize) -> usize {
+    let trie = unsafe { &*(user_data as *const toktrie::TokTrie) };
+    let s = unsafe { std::slice::from_raw_parts(bytes, bytes_len) };
+    let toks = trie.greedy_tokenize(s);
+    let n = toks.len().min(out_len);
+    unsafe { std::ptr::copy_nonoverlapping(toks.as_ptr(), out, n) };
+    toks.len()
 }
 impl Drop for CTok {
     fn drop(&mut self) {
@@ -29,7 +41,10 @@ impl Drop for CTok {
     }
 }
 
-fn new_ctok(words: &[Vec<u8>], eos: u32) -> Result<CTok, String> {
+fn new_ctok(words: &[Vec<u8>], eos: u32, canonical: bool) -> Result<CTok, String> {
+    let trie: Option<Box<toktrie::TokTrie>> = if canonical {
+        Some(Box::new(toktrie::TokTrie::from(&toktrie::TokRxInfo::new(words.len() as u32, eos), words)))
+    } else { None };
     let lens: Vec<u32> = words.iter().map(|w| w.len() as u32).collect();
     let bytes: Vec<u8> = words.iter().flat_map(|w| w.iter().copied()).collect();
     let empty: [*const std::ffi::c_char; 1] = [std::ptr::null()];
@@ -40,9 +55,9 @@ fn new_ctok(words: &[Vec<u8>], eos: u32) -> Result<CTok, String> {
         token_bytes: bytes.as_ptr(),
         tokenizer_json: std::ptr::null(),
         tokenize_assumes_string: false,
-        tokenize_fn: None,
-        use_approximate_greedy_tokenize_fn: true,
-        tokenize_user_data: std::ptr::null(),
+        tokenize_fn: if canonical { Some(c_tokenize) } else { None },
+        use_approximate_greedy_tokenize_fn: !canonical,
+        tokenize_user_data: trie.as_ref().map(|t| &**t as *const toktrie::TokTrie as *const std::ffi::c_void).unwrap_or(std::ptr::null()),
         slices: empty.as_ptr(),
     };
     let mut err = vec![0u8; 512];
@@ -51,7 +66,7 @@ fn new_ctok(words: &[Vec<u8>], eos: u32) -> Result<CTok, String> {
         let n = err.iter().position(|&b| b == 0).unwrap_or(err.len());
         Err(String::from_utf8_lossy(&err[..n]).to_string())
     } else {
-        Ok(CTok { ptr: p })
+        Ok(CTok { ptr: p, _trie: trie })
     }
 }
 
@@ -87,7 +102,7 @@ pub fn gen_case(rng: &mut Rng, idx: usize, tier_thorough: bool) -> Value {
     let delta = [-2i64, -1, 0, 1, 2, 31, 33][rng.below(7)];
     let target = (base as i64 + delta) as usize;
     let steps = rng.below(if tier_thorough { 12 } else { 6 });
-    json!({"grammar": g.to_json(), "vocab_target": target, "steps": steps, "seed": rng.next() % 1_000_000})
+    json!({"grammar": g.to_json(), "vocab_target": target, "steps": steps, "canonical": (idx / corpus.len()) % 2 == 1, "seed": rng.next() % 1_000_000})
 }
 
 fn texts_for(g: &Gram) -> Vec<Vec<u8>> {
@@ -105,7 +120,9 @@ pub fn run_case(ctx: &Ctx, case: &Value, tag: usize, rep: &mut Report, mb: &mut 
     let steps = case["steps"].as_u64().unwrap() as usize;
     let (words, eos) = vocab::synth_words(&mut rng, &texts_for(&g), 24, Some(target));
     let vocab_n = words.len();
-    let env: TokEnv = vocab::env_from_words(&words, eos, false);
+    // half of the cases on a canonical tokenizer (a tokenize callback on the C side): only then are tokens forced
+    let canonical = case["canonical"].as_bool().unwrap_or(false);
+    let env: TokEnv = vocab::env_from_words(&words, eos, canonical);
     let fac = match engine::factory(&env, None, false) {
         Ok(f) => f,
         Err(e) => {
@@ -121,7 +138,7 @@ pub fn run_case(ctx: &Ctx, case: &Value, tag: usize, rep: &mut Report, mb: &mut 
         }
     };
     let mut rm = engine::matcher(&fac, &g);
-    let tok = match new_ctok(&words, eos) {
+    let tok = match new_ctok(&words, eos, canonical) {
         Ok(t) => t,
         Err(e) => {
             rep.fail("oracle", "c17:tokenizer", format!("llg_new_tokenizer failed: {e}"), case.clone());
@@ -354,6 +371,21 @@ pub fn run_case(ctx: &Ctx, case: &Value, tag: usize, rep: &mut Report, mb: &mut 
             let n = unsafe { llg_matcher_compute_ff_tokens(&mut *cm, out.as_mut_ptr(), out.len()) };
             if n < 0 || rff.len() != n as usize || rff[..] != out[..n as usize] {
                 rep.fail("oracle", "c17:ff-differs", format!("compute_ff_tokens: Rust {rff:?}, C n={n}"), case.clone());
+            }
+            // every destination capacity around the number of forced tokens: the return value is the number written,
+            // min(N, capacity); nothing beyond it is touched
+            {
+                let nff = rff.len();
+                if nff > 0 { rep.count("ff.states_with_forced_tokens"); }
+                for cap in [0usize, 1, nff.saturating_sub(1), nff, nff + 1, nff + 5] {
+                    let mut buf = vec![0xDEADBEEFu32; cap + 4];
+                    let n = unsafe { llg_matcher_compute_ff_tokens(&mut *cm, buf.as_mut_ptr().add(2), cap) };
+                    let want = nff.min(cap);
+                    if n != want as i32 || buf[2..2 + want] != rff[..want] || buf[..2].iter().chain(buf[2 + want..].iter()).any(|x| *x != 0xDEADBEEF) {
+                        rep.fail("oracle", "c17:ff-capacity", format!("llg_matcher_compute_ff_tokens with capacity {cap}: returned {n}, wrote {:?}; the engine forces {rff:?} (expected return {want})", &buf), case.clone());
+                        break;
+                    }
+                }
             }
             // occasional rollback through both
             if rng.chance(1, 4) {
